@@ -29,6 +29,7 @@ import (
 	"sort"
 	"strings"
 	"sync"
+	"sync/atomic"
 	"time"
 
 	"verif/harness/common"
@@ -124,6 +125,7 @@ func main() {
 		default:
 			p = genPrivate(run.Rng, 2+run.Rng.Intn(3), false)
 		}
+		p.Spawn = []string{"", "fv", "lit"}[run.Rng.Intn(3)]
 		it := &item{Stream: "A", Name: "model-" + p.Family, Model: p, Ref: p.Go(), Goroutines: len(p.Acts)}
 		items = append(items, it)
 	}
@@ -257,9 +259,18 @@ func main() {
 			if k == 0 {
 				cf = allCfgs[1] // every program runs at least once plainly on 4 processors
 			}
-			c := Case{ID: id, Sched: cf.Sched, Prob: cf.Prob, Seed: run.Rng.Int63(), MS: 20000}
+			c := Case{ID: id, Sched: cf.Sched, Prob: cf.Prob, Seed: run.Rng.Int63(), MS: 12000}
 			if it.Class != "" {
 				c.MS = 5000 // outside the domain a dead-lock is a possible outcome
+			}
+			if it.Tmpl != nil && it.Tmpl.ForceP1 && k == 1 {
+				// on one processor the goroutines start after the spawning loop has finished
+				cf = cfg{1, "none", 0}
+				c.Sched, c.Prob = "none", 0
+			}
+			if it.Model != nil && it.Model.Spawn != "" && k == 1 {
+				cf = cfg{1, "none", 0}
+				c.Sched, c.Prob = "none", 0
 			}
 			if it.Tmpl != nil && it.Tmpl.Parties > 0 && k == 0 {
 				// the goroutines meet before every execution of the statement under test
@@ -579,6 +590,9 @@ func runJobs(run *common.Run, bin string, jobs []*job, race bool) {
 	var wg sync.WaitGroup
 	sem := make(chan struct{}, 4)
 	var mu sync.Mutex
+	// when the interpreter under test dead-locks on many cases (a broken repository), the deadlines add up: after two
+	// minutes of accumulated timeouts the remaining cases get a short deadline (never reached on a healthy tree)
+	var lost int64
 	for _, sh := range shards {
 		wg.Add(1)
 		go func(P int, js []*job) {
@@ -611,6 +625,9 @@ func runJobs(run *common.Run, bin string, jobs []*job, race bool) {
 						return
 					}
 				}
+				if atomic.LoadInt64(&lost) > 120000 && j.c.MS > 1500 {
+					j.c.MS = 1500
+				}
 				b, _ := json.Marshal(j.c)
 				if _, err := c.in.Write(append(b, '\n')); err != nil {
 					j.died = "child process gone before the case: " + tail(c.stderr.String(), 300)
@@ -629,6 +646,7 @@ func runJobs(run *common.Run, bin string, jobs []*job, race bool) {
 						j.out = &o
 						if o.Timeout {
 							// goroutines of a dead-locked script stay behind: start afresh
+							atomic.AddInt64(&lost, int64(j.c.MS))
 							flush()
 						}
 					}
